@@ -224,9 +224,10 @@ def guardCovers (prog : List HOp) : Bool :=
 /-- does a dispatch/begin program compare the reader's return value with the datagram length and
 leave on a mismatch, after calling `reader`? -/
 def exactLenAfter (dispatch : List HOp) (reader : String) : Bool :=
+  -- the comparison must come right after the reader's call: before the next protocol step
   let rec go : List HOp → Bool → Bool
     | [], _ => false
-    | .compute w _ :: rest, seen => go rest (seen || w = reader)
+    | .compute w _ :: rest, seen => if seen then false else go rest (w = reader)
     | .constCheck c enf :: rest, seen =>
       if seen && enf && (c = "n != msgLen" ∨ c = "shn != n" ∨ c = "n != len(b)") then true else go rest seen
     | _ :: rest, seen => go rest seen
